@@ -1,5 +1,5 @@
 //@ unit U-CACHEGET
-//@ props C12
+//@ props C12 C13
 //@ verus-args --rlimit 100
 //@ gsubst `VerificationCell<CacheItem>` => `VCell` :: R11 stub type: the cell as its users see it through `Deref` (the item's fields) plus the shared verification flag
 #![feature(allocator_api)]
@@ -18,7 +18,7 @@ enum ErrorKind { NotFound, PermissionDenied, Other }
 struct IoError { pub k: ErrorKind }
 impl IoError {
     #[verifier::external_body]
-    fn kind(&self) -> ErrorKind { unimplemented!() }
+    fn kind(&self) -> (r: ErrorKind) ensures r == self.k { unimplemented!() }
 }
 impl From<IoError> for ChunkCacheError {
     #[verifier::external_body]
@@ -98,6 +98,15 @@ impl File {
             },
     { unimplemented!() }
 }
+// C13 read-back trace (ghost): see `get_impl_readback`
+struct GetTrace { pub pending: Ghost<Option<PathBuf>> }
+// `File::open` as above, recording a NotFound answer for the path asked
+#[verifier::external_body]
+fn vx_open_tr(path: &PathBuf, vx_tr: &mut GetTrace) -> (r: Result<File, IoError>)
+    ensures
+        r matches Ok(f) ==> f.bytes@ == disk(*path) && f.pos@ == 0 && final(vx_tr).pending@ == old(vx_tr).pending@,
+        r matches Err(e) ==> final(vx_tr).pending@ == (if e.k == ErrorKind::NotFound { Some(*path) } else { old(vx_tr).pending@ }),
+{ unimplemented!() }
 struct Crc32Hasher { pub fed: Ghost<Seq<u8>> }
 impl Crc32Hasher {
     #[verifier::external_body]
@@ -201,6 +210,20 @@ impl DiskCache {
     { unimplemented!() }
     #[verifier::external_body]
     fn remove_item(&self, key: &Key, cache_item: &VCell) -> (r: Result<(), ChunkCacheError>) { unimplemented!() }
+    // the same three operations with the ghost trace (C13 read-back protocol, see `get_impl_readback` below)
+    #[verifier::external_body]
+    fn find_match_tr(&self, key: &Key, range: &ChunkRange, vx_tr: &mut GetTrace) -> (r: OptionResult<VCell, ChunkCacheError>)
+        requires /*@C13*/ old(vx_tr).pending@ is None       // no new look-up while an entry seen without its file is still tracked
+        ensures final(vx_tr).pending@ == old(vx_tr).pending@, r matches Ok(Some(c)) ==> covers(c, *range)
+    { unimplemented!() }
+    // `remove_item` (U-CACHEACCT remove_item_cs: entry out of the list, counters reduced; then the file part).  The state part comes
+    // first and fails only on a poisoned lock, so `Ok` means the entry is gone from the state.
+    #[verifier::external_body]
+    fn remove_item_tr(&self, key: &Key, cache_item: &VCell, vx_tr: &mut GetTrace) -> (r: Result<(), ChunkCacheError>)
+        ensures
+            r is Ok ==> final(vx_tr).pending@ == (if old(vx_tr).pending@ == Some(cell_path(*cache_item)) { None::<PathBuf> } else { old(vx_tr).pending@ }),
+            r is Err ==> final(vx_tr).pending@ == old(vx_tr).pending@,
+    { unimplemented!() }
 
 //@ extract chunk_cache/src/disk.rs in `impl DiskCache` fn get_impl
 //@ ret r
@@ -216,6 +239,35 @@ impl DiskCache {
                 proof { assert(file.bytes@.subrange(0, file.bytes@.len() as int) =~= file.bytes@); }
 //@ before `return Ok(Some(result_buf));`
             proof { /*@C12*/ assert(hit_from(cache_item, header.chunk_byte_indices@, *range, result_buf)); assert(is_hit(*range, result_buf)); }
+//@ end
+
+// ---- C13, read-back: "once each entry has been read back (which drops entries whose file a racing deletion removed) the totals
+// equal what is on disk".  A second extraction of the SAME body (R8 region = the whole block of `get_impl`) against an explicit ghost
+// trace object (R20-style elaboration: the calls that observe / repair the state get the trace as an extra argument; no executable
+// text changes).  `pending` = the path of a tracked item whose file this call has just SEEN to be missing (`File::open` -> NotFound)
+// and has not yet taken out of the state.  Protocol: the observation sets it, `remove_item` of that very item clears it (U-CACHEACCT
+// `remove_item_cs`: the entry leaves the list and num_items / total_bytes are reduced by one / its length), and neither the next
+// look-up nor an `Ok` return may happen while it is set.
+//@ extract chunk_cache/src/disk.rs in `impl DiskCache` region get_impl
+//@ block `fn get_impl(&self, key: &Key, range: &ChunkRange) -> OptionResult<CacheRange, ChunkCacheError> {`
+//@ sig `fn get_impl_readback(&self, key: &Key, range: &ChunkRange, vx_tr: &mut GetTrace) -> (r: OptionResult<CacheRange, ChunkCacheError>)`
+//@ optsubst `self.find_match(key, range)` => `self.find_match_tr(key, range, vx_tr)` :: explicit ghost trace (R20-style): same call, the trace is passed along
+//@ optsubst `File::open(&path)` => `vx_open_tr(&path, vx_tr)` :: explicit ghost trace: same call (File::open's contract), a NotFound result is recorded
+//@ optsubst `self.remove_item(key, &cache_item)` => `self.remove_item_tr(key, &cache_item, vx_tr)` :: explicit ghost trace: same call, the removal is recorded
+//@ subst `std::io::BufReader::new(file)` => `BufReader::new(file)` :: R11 stub type path
+//@ prefix
+    #[verifier::exec_allows_no_decreases_clause]
+//@ contract
+        requires old(vx_tr).pending@ is None,
+        ensures
+            // every way of answering the caller (hit, miss) leaves no entry behind that was seen without its file
+            /*@C13*/ r is Ok ==> final(vx_tr).pending@ is None,
+//@ loop 1
+            invariant
+                range.start < range.end,
+                /*@C13*/ vx_tr.pending@ is None,     // every retry starts with no entry left behind that was seen without its file
+//@ after `let checksum = crc32_from_reader(&mut file)?;`
+                proof { assert(file.bytes@.subrange(0, file.bytes@.len() as int) =~= file.bytes@); }
 //@ end
 
 // the public entry point (`impl ChunkCache for DiskCache`): a plain forward, so it carries get_impl's contract
